@@ -33,6 +33,7 @@ type Tape struct {
 	KeepLog     bool
 	Exhausted   bool
 	Unannounced int // words supplied by the fallback (no draw announced)
+	MaxReq      int // largest single Read request: > 4 means the code fetches words ahead of the draws that will use them
 }
 
 var ErrTapeFault = errors.New("verif: injected random source failure")
@@ -47,6 +48,9 @@ func (t *Tape) Push(w uint32) {
 
 func (t *Tape) Read(p []byte) (int, error) {
 	t.Reads++
+	if len(p) > t.MaxReq {
+		t.MaxReq = len(p)
+	}
 	if t.FailAt != 0 && t.Reads == t.FailAt {
 		n := t.FailGot
 		if n > len(p) {
